@@ -1,7 +1,7 @@
 /* Scenario obligations for C01 / C11 / C04 / C02 over the real element.c fetch.c table.c peer.c response.c
  * parse.c (dispatcher) router.c. Concrete call skeletons, symbolic data and faults. */
 #include "scn.h"
-#include "hashtable.h"
+#include "hash_abs.h"
 
 /* credential back end is not part of these scenarios */
 const cJSON *credentials_ok(const char *u, char *p) { (void)u; (void)p; return 0; }
@@ -64,6 +64,10 @@ void harness_add_notify(void)
 	void *in_index = element_table_get("a");
 	CHECK(ok == (in_index != 0), "C04.add_succeeds_iff_element_now_exists");
 	if (!failing_peer && !table_refuses) {
+#ifdef DBG
+		CHECK(nlog == 2, "C01.dbg_nlog2"); CHECK(LOG[1].to == &C, "C01.dbg_to"); CHECK(LOG[1].kind == K_EVENT, "C01.dbg_kind"); CHECK(LOG[1].event == 'a', "C01.dbg_event"); CHECK(LOG[1].path[0] == 'a', "C01.dbg_path");
+		CHECK(sends == 2, "C01.dbg_sends2"); CHECK(LOG[1].path[0] == 0, "C01.dbg_path_empty"); CHECK(LOG[0].path[0] == 'a', "C01.dbg_path0"); CHECK(LOG[1].has_value, "C01.dbg_hasvalue1"); CHECK(LOG[1].id_str[1] == 'c', "C01.dbg_idc");
+#endif
 		CHECK(ok && b_saw == 1 && c_saw == 1, "C01.add_reaches_every_subscriber_exactly_once");
 		struct sent *eb = last_of(&B, K_EVENT);
 		if (eb) CHECK(eb->has_value && eb->value_int == v && eb->id_type == cJSON_String && eb->id_str[0] == 'f' && eb->id_str[1] == 'b', "C01.add_event_carries_value_and_fetch_id");
@@ -93,30 +97,42 @@ void harness_change_remove(void)
 	int v = (int)nd_range(0, 999);
 	int who = (int)nd_range(0, 2);
 	failing_peer = who == 1 ? &B : who == 2 ? &C : 0;
-	int do_remove = nd_bool();
-	int by_owner = nd_bool();
+#ifdef DO_REMOVE
+	int do_remove = 1;               /* the operation is fixed per obligation (a symbolic choice of operation defeats constant propagation) */
+#else
+	int do_remove = 0;
+#endif
+#ifdef NOT_OWNER
+	int by_owner = 0;                /* the requester is fixed per obligation (a symbolic peer pointer makes every list walk symbolic) */
+#else
+	int by_owner = 1;
+#endif
 	struct peer *actor = by_owner ? &A : &B;
 	reset_log();
 	scn_build_begin();
-	cJSON *req = do_remove ? mkreq("remove", 4, path_params("a", -1)) : mkreq("change", 4, path_params("a", v));
+	cJSON *req = do_remove ? mkreq("remove", 4, path_params("a", NO_VALUE)) : mkreq("change", 4, path_params("a", v));
 	scn_build_end();
 	if (!by_owner && failing_peer == &B) failing_peer = 0;   /* the actor's own send path is healthy in this scenario */
-	int r = dispatch(actor, req);
-	CHECK(r == 0, "C11.requester_not_dropped_for_others_faults");
-	CHECK(count_responses(actor) == 1, "C02.request_answered_exactly_once");
+	cJSON *resp = do_remove ? remove_element_from_peer(actor, req) : change_state(actor, req);
+	CHECK(resp != 0, "C02.request_with_id_gets_a_response");
+	int ok = resp && cJSON_GetObjectItem(resp, "result") != 0;
+	int is_err = resp && cJSON_GetObjectItem(resp, "error") != 0;
+	CHECK(ok != is_err, "C02.response_has_result_xor_error");
 	struct element *e = element_table_get("a");
 	char evc = do_remove ? 'r' : 'c';
 	int b_saw = count_events(&B, evc, "a"), c_saw = count_events(&C, evc, "a");
 	if (!by_owner) {
-		CHECK(!response_ok(actor), "C04.only_owner_may_change_or_remove");
+		CHECK(!ok, "C04.only_owner_may_change_or_remove");
 		CHECK(e != 0 && e->value && e->value->valueint == 5, "C04.refused_request_changes_nothing");
 		CHECK(count_kind(&B, K_EVENT) == 0 && count_kind(&C, K_EVENT) == 0, "C01.no_event_for_refused_request");
+		CHECK(is_err, "C04.refused_request_answered_with_error");
 		REACH("not_owner");
 	} else {
+		if (is_err) CHECK(e != 0 && e->value && e->value->valueint == 5, "C04.request_answered_with_error_changed_nothing");
 		if (do_remove) CHECK(e == 0, "C04.owner_remove_takes_effect");
 		else CHECK(e != 0 && e->value && e->value->valueint == v, "C04.owner_change_takes_effect");
 		if (!failing_peer) {
-			CHECK(response_ok(actor), "C04.owner_request_succeeds");
+			CHECK(ok, "C04.owner_request_succeeds");
 			CHECK(b_saw == 1 && c_saw == 1, "C01.change_remove_reaches_every_subscriber_exactly_once");
 			struct sent *eb = last_of(&B, K_EVENT);
 			if (eb && !do_remove) CHECK(eb->has_value && eb->value_int == v, "C01.change_event_carries_new_value");
@@ -152,7 +168,11 @@ void harness_fetch_order(void)
 	__CPROVER_assume(dispatch(&B, again) == 0);
 	CHECK(nlog == 1 && LOG[0].kind == K_RESPONSE && LOG[0].is_error, "C01.duplicate_fetch_id_refused_without_events");
 	/* unfetch, then a change: nothing is delivered for the fetch any more */
-	int do_unfetch = nd_bool();
+#ifdef DO_UNFETCH
+	int do_unfetch = 1;
+#else
+	int do_unfetch = 0;
+#endif
 	if (do_unfetch) {
 		scn_build_begin();
 		cJSON *un = mkreq("unfetch", 4, fetch_params("fb"));
@@ -177,10 +197,22 @@ void harness_min(void)
 	__CPROVER_assume(element_hashtable_create() == 0);
 	mkpeer(&A, true);
 	scn_build_begin();
-	cJSON *add = mkreq("add", 1, path_params("a", 3));
+	int v = (int)nd_range(0, 999);
+	cJSON *add = mkreq("add", 1, path_params("a", v));
 	scn_build_end();
 	int r = dispatch(&A, add);
 	CHECK(r == 0, "C02.min");
 	WITNESS_END();
+}
+#endif
+#ifdef SCN_PROBE
+void harness_probe2(void)
+{
+	__CPROVER_assume(element_hashtable_create() == 0);
+	static int x;
+	int r = real_element_table_put("a", &x);
+	__CPROVER_assert(r == 0, "PROBE put ok");
+	void *g = element_table_get("a");
+	__CPROVER_assert(g == &x, "PROBE get ok");
 }
 #endif
